@@ -55,7 +55,7 @@ func (m c15MC) cfg(spec, invs string) string {
 		spec, m.Q, m.MaxT, m.MaxN, c15IdsSet(m.Ids), m.AltMax, m.AltN, invs)
 }
 
-const c15Invs = "InvSecrecy InvDeal InvCall InvEval"
+const c15Invs = "InvSecrecy InvDeal InvCall InvEval InvInterp"
 
 func c15RunMC(ms []c15MC, workers int) ([]tlc.Result, error) {
 	out := make([]tlc.Result, len(ms))
@@ -188,8 +188,12 @@ func c15ToySampled(q, count int, seed int64) []c15Scenario {
 		if rng.Intn(12) == 0 {
 			secret = 0
 		}
+		only := []int{rng.Intn(n)}
+		if o := rng.Intn(n); o != only[0] {
+			only = append(only, o)
+		}
 		out = append(out, c15Scenario{Curve: curve, T: t, Secret: strconv.Itoa(secret), Ids: c15Ints(ids), Seed: seed*1000003 + int64(len(out)),
-			Alter: true, Label: label})
+			Alter: true, Only: only, Label: label})
 	}
 	return out
 }
@@ -260,7 +264,16 @@ func c15RealPlan(ctx *core.Ctx, cv *c15Curve) []c15Scenario {
 	classes := []string{"1", "q-1", "random"}
 	var out []c15Scenario
 	mk := func(t int, secret *big.Int, ids []*big.Int, alter bool, label string) {
-		out = append(out, c15Scenario{Curve: cv.Name, T: t, Secret: secret.String(), Ids: c15Strs(ids), Seed: ctx.Seed*1000003 + int64(len(out)), Alter: alter, Label: label})
+		// the material of one share (quick) or two shares (thorough) is altered, rotating through the positions
+		n, k := len(ids), len(out)
+		only := []int{k % n}
+		if ctx.Thorough() && n > 1 {
+			only = append(only, (k+1+n/2)%n)
+			if only[1] == only[0] {
+				only[1] = (only[0] + 1) % n
+			}
+		}
+		out = append(out, c15Scenario{Curve: cv.Name, T: t, Secret: secret.String(), Ids: c15Strs(ids), Seed: ctx.Seed*1000003 + int64(len(out)), Alter: alter, Only: only, Label: label})
 	}
 	k := 0
 	for _, p := range tn {
@@ -318,7 +331,7 @@ func c15RealPlan(ctx *core.Ctx, cv *c15Curve) []c15Scenario {
 
 // ------------------------------------------------------------------ running scenarios
 
-func c15RunAll(scs []c15Scenario, workers int) ([]*c15Result, error) {
+func c15RunAll(scs []c15Scenario, workers int, dd *c15Dedupe) ([]*c15Result, error) {
 	curves := map[string]*c15Curve{}
 	for _, sc := range scs {
 		if _, ok := curves[sc.Curve]; !ok {
@@ -340,7 +353,7 @@ func c15RunAll(scs []c15Scenario, workers int) ([]*c15Result, error) {
 		go func() {
 			defer wg.Done()
 			for i := range ch {
-				out[i] = c15Run(curves[scs[i].Curve], scs[i])
+				out[i] = c15Run(curves[scs[i].Curve], scs[i], dd)
 			}
 		}()
 	}
@@ -355,15 +368,16 @@ func c15RunAll(scs []c15Scenario, workers int) ([]*c15Result, error) {
 // ------------------------------------------------------------------ trace validation
 
 type c15TraceVerdict struct {
-	Q        int
-	Lines    int
-	Calls    int
-	Accepted bool
-	FailLine int // 1-based, 0 if unknown
-	Res      tlc.Result
+	Q               int
+	Lines           int
+	Calls           int
+	Accepted        bool
+	FailLine        int // 1-based, 0 if unknown
+	AcceptedCorrupt bool
+	Res             tlc.Result
 }
 
-var reC15Reject = regexp.MustCompile(`<<"TRACE_(?:REJECT|ACCEPTED_CORRUPT)", (\d+)>>`)
+var reC15Reject = regexp.MustCompile(`<<"TRACE_(REJECT|ACCEPTED_CORRUPT)", (\d+)>>`)
 
 func c15WriteLines(lines []string) (string, func(), error) {
 	tmpBase := os.Getenv("VERIF_TMP")
@@ -381,12 +395,16 @@ func c15WriteLines(lines []string) (string, func(), error) {
 		return "", nil, err
 	}
 	abs, _ := filepath.Abs(tf.Name())
+	if os.Getenv("VERIF_C15_KEEP") != "" { // debugging aid: keep the trace files
+		return abs, func() {}, nil
+	}
 	return abs, func() { os.Remove(tf.Name()) }, nil
 }
 
-// c15Validate lets TLC check a file of lines of one toy order against FeldmanVSS_Trace.tla. inv is TraceInv (every line must
-// be explained) or TraceRejectInv (self test: no line may be explained).
-func c15Validate(q int, lines []string, inv string, workers int) (c15TraceVerdict, error) {
+// c15Validate lets TLC check a file of lines of one toy order against FeldmanVSS_Trace.tla (TraceInv: every line must be
+// explained, except those marked as corrupted by the self test, which must not).
+func c15Validate(q int, lines []string, workers int) (c15TraceVerdict, error) {
+	const inv = "TraceInv"
 	v := c15TraceVerdict{Q: q, Lines: len(lines)}
 	path, cleanup, err := c15WriteLines(lines)
 	if err != nil {
@@ -398,7 +416,8 @@ func c15Validate(q int, lines []string, inv string, workers int) (c15TraceVerdic
 		Workers: workers, Heap: "4g", Timeout: 40 * time.Minute})
 	v.Res = r
 	if mm := reC15Reject.FindStringSubmatch(r.Output); mm != nil {
-		v.FailLine, _ = strconv.Atoi(mm[1])
+		v.FailLine, _ = strconv.Atoi(mm[2])
+		v.AcceptedCorrupt = mm[1] == "ACCEPTED_CORRUPT"
 	}
 	if r.Err != nil && r.Violated == "" {
 		return v, fmt.Errorf("trace validation (toy-%d, %d lines): %v", q, len(lines), r.Err)
@@ -499,7 +518,7 @@ func C15(ctx *core.Ctx) error {
 		if _, err := core.LoadReplay(ctx.Replay, &sc); err != nil {
 			return core.Inconcl("cannot load replay: %v", err)
 		}
-		rs, err := c15RunAll([]c15Scenario{sc}, 1)
+		rs, err := c15RunAll([]c15Scenario{sc}, 1, nil)
 		if err != nil {
 			return core.Inconcl("replay: %v", err)
 		}
@@ -524,8 +543,14 @@ func C15(ctx *core.Ctx) error {
 	var mcRes []tlc.Result
 	var mcErr error
 	var wg sync.WaitGroup
+	skip := os.Getenv("VERIF_C15_SKIP") // development aid only ("mc", "real"): a run with it set is reported inconclusive
 	wg.Add(1)
-	go func() { defer wg.Done(); mcRes, mcErr = c15RunMC(mcPlan, ctx.Pick(3, 4)) }()
+	go func() {
+		defer wg.Done()
+		if !strings.Contains(skip, "mc") {
+			mcRes, mcErr = c15RunMC(mcPlan, ctx.Pick(3, 4))
+		}
+	}()
 
 	// ---- the real code on the toy curves
 	type toyRun struct {
@@ -542,17 +567,21 @@ func C15(ctx *core.Ctx) error {
 	for _, m := range mcPlan {
 		toys = append(toys, &toyRun{q: m.Q, exhaustive: true, scs: c15ToyExhaustive(m, ctx.Seed)})
 	}
-	sampledQs := []int{7, 17, 251}
+	sampledQs := []int{17, 251}
 	if ctx.Thorough() {
 		sampledQs = []int{11, 17, 19, 23, 227, 251}
 	}
 	for _, q := range sampledQs {
-		toys = append(toys, &toyRun{q: q, scs: c15ToySampled(q, ctx.Pick(150, 1500), ctx.Seed)})
+		toys = append(toys, &toyRun{q: q, scs: c15ToySampled(q, ctx.Pick(40, 300), ctx.Seed)})
 	}
 	t0 := time.Now()
 	for _, tr := range toys {
 		var err error
-		tr.res, err = c15RunAll(tr.scs, 6)
+		var dd *c15Dedupe
+		if tr.exhaustive {
+			dd = &c15Dedupe{}
+		}
+		tr.res, err = c15RunAll(tr.scs, 6, dd)
 		if err != nil {
 			wg.Wait()
 			return core.Inconcl("toy curve of order %d: %v", tr.q, err)
@@ -568,14 +597,16 @@ func C15(ctx *core.Ctx) error {
 			wg.Wait()
 			return core.Inconcl("%v", err)
 		}
-		realScs = append(realScs, c15RealPlan(ctx, cv)...)
+		if !strings.Contains(skip, "real") {
+			realScs = append(realScs, c15RealPlan(ctx, cv)...)
+		}
 	}
 	t0 = time.Now()
 	var realRes []*c15Result
 	var realErr error
 	var wgReal sync.WaitGroup
 	wgReal.Add(1)
-	go func() { defer wgReal.Done(); realRes, realErr = c15RunAll(realScs, 6) }()
+	go func() { defer wgReal.Done(); realRes, realErr = c15RunAll(realScs, 6, nil) }()
 
 	// ---- judge the toy runs, check that the tapes covered the whole coefficient space, build the trace files
 	type agg struct{ verifies, recons, fewer, fewerHits, coinc, degenerate, alias, ok, refused, panics, drift int }
@@ -667,7 +698,7 @@ func C15(ctx *core.Ctx) error {
 		// coverage: the tapes are only a means to reach every coefficient vector. Which tape yields which vector is not
 		// assumed; that all (q-1)^t vectors without a zero appeared (and the other tapes ended in the degenerate panic) is
 		// measured here. If not, the enumeration is no longer exhaustive: inconclusive, not a verdict.
-		if tr.exhaustive && len(ctx.Violations()) == 0 {
+		if tr.exhaustive {
 			for key, g := range groups {
 				want := 1
 				all := 1
@@ -688,8 +719,35 @@ func C15(ctx *core.Ctx) error {
 		}
 	}
 
-	// ---- binding: TLC must explain every line; one run per toy order, at most 8 TLC workers in flight
-	sem := make(chan struct{}, 2)
+	// ---- self test of the binding: copies of accepted lines with one logged value changed are mixed into the first
+	// trace, marked x = 1; TraceInv demands that TLC explains none of them
+	selfWhat := map[int]string{} // line number (1-based) in toys[0].lines -> what was corrupted
+	{
+		tr := toys[0]
+		var good []int
+		for j, r := range tr.res {
+			if r.Line != nil && (len(r.Line.Ver) > 0 || r.Line.Out != "ok") {
+				good = append(good, j)
+			}
+		}
+		k := 0
+		for n := 0; n < 64 && len(good) > 0; n++ {
+			j := good[(n*len(good))/64]
+			c, what, ok := c15Corrupt(*tr.res[j].Line, tr.q, k)
+			k++
+			if !ok {
+				continue
+			}
+			c.X = 1
+			bz, _ := json.Marshal(c)
+			tr.lines = append(tr.lines, string(bz))
+			tr.owner = append(tr.owner, -1)
+			selfWhat[len(tr.lines)] = what
+		}
+	}
+
+	// ---- binding: TLC must explain every line; one run per toy order
+	sem := make(chan struct{}, 3)
 	var wgT sync.WaitGroup
 	for _, tr := range toys {
 		if len(tr.lines) == 0 {
@@ -704,42 +762,8 @@ func C15(ctx *core.Ctx) error {
 			if tr.exhaustive {
 				w = 3
 			}
-			tr.verdict, tr.err = c15Validate(tr.q, tr.lines, "TraceInv", w)
+			tr.verdict, tr.err = c15Validate(tr.q, tr.lines, w)
 		}(tr)
-	}
-	// self test of the binding: corrupted lines must all be rejected
-	var selfLines []string
-	var selfWhat []string
-	{
-		tr := toys[0]
-		step := len(tr.res)/64 + 1
-		k := 0
-		for i := 0; i < len(tr.res) && len(selfLines) < 48; i += step {
-			for j := i; j < len(tr.res) && j < i+step; j++ {
-				if tr.res[j].Line == nil {
-					continue
-				}
-				c, what, ok := c15Corrupt(*tr.res[j].Line, tr.q, k)
-				if ok {
-					b, _ := json.Marshal(c)
-					selfLines = append(selfLines, string(b))
-					selfWhat = append(selfWhat, what)
-					k++
-					break
-				}
-			}
-		}
-	}
-	var selfV c15TraceVerdict
-	var selfErr error
-	if len(selfLines) > 0 {
-		wgT.Add(1)
-		go func() {
-			defer wgT.Done()
-			sem <- struct{}{}
-			defer func() { <-sem }()
-			selfV, selfErr = c15Validate(toys[0].q, selfLines, "TraceRejectInv", 1)
-		}()
 	}
 
 	// ---- judge the real-size runs
@@ -790,46 +814,48 @@ func C15(ctx *core.Ctx) error {
 			inconcl = append(inconcl, tr.err.Error())
 			continue
 		}
-		calls := 0
+		calls, corrupted := 0, 0
 		for _, i := range tr.owner {
+			if i < 0 {
+				corrupted++
+				continue
+			}
 			calls += len(tr.res[i].Line.Ver) + len(tr.res[i].Line.Rec) + len(tr.res[i].Line.Recx)
 		}
 		traceOut = append(traceOut, map[string]any{"curve": fmt.Sprintf("toy-%d", tr.q), "field_p": mustToy(tr.q).Pf, "b": mustToy(tr.q).B, "exhaustive": tr.exhaustive,
-			"dealings": len(tr.scs), "lines_validated": len(tr.lines), "calls_in_lines": calls, "wall_s": tr.verdict.Res.Wall})
+			"dealings": len(tr.scs), "lines_validated": len(tr.lines) - corrupted, "corrupted_lines_rejected": corrupted, "calls_in_lines": calls, "wall_s": tr.verdict.Res.Wall})
 		if !tr.verdict.Accepted {
+			fl := tr.verdict.FailLine
 			text, idx := "", -1
-			if tr.verdict.FailLine >= 1 && tr.verdict.FailLine <= len(tr.lines) {
-				text, idx = tr.lines[tr.verdict.FailLine-1], tr.owner[tr.verdict.FailLine-1]
+			if fl >= 1 && fl <= len(tr.lines) {
+				text, idx = tr.lines[fl-1], tr.owner[fl-1]
 			}
-			inconcl = append(inconcl, fmt.Sprintf("FeldmanVSS_Trace does not explain line %d of the toy-%d trace (scenario %d) although the harness found nothing wrong in it - model and code disagree: %s [%s]",
-				tr.verdict.FailLine, tr.q, idx, core.Short(text, 600), tr.verdict.Res.Violated))
+			if tr.verdict.AcceptedCorrupt {
+				inconcl = append(inconcl, fmt.Sprintf("self test of the binding: FeldmanVSS_Trace explains line %d of the toy-%d trace although its %s was changed: %s", fl, tr.q, selfWhat[fl], core.Short(text, 400)))
+			} else {
+				inconcl = append(inconcl, fmt.Sprintf("FeldmanVSS_Trace does not explain line %d of the toy-%d trace (scenario %d) although the harness found nothing wrong in it - model and code disagree: %s [%s]",
+					fl, tr.q, idx, core.Short(text, 600), tr.verdict.Res.Violated))
+			}
 			continue
 		}
-		cov.AddTraces(len(tr.lines))
+		cov.AddTraces(len(tr.lines) - corrupted)
 		cov.Add("trace_calls_validated", calls)
-	}
-	if len(selfLines) > 0 {
-		switch {
-		case selfErr != nil:
-			inconcl = append(inconcl, "self test of the binding: "+selfErr.Error())
-		case !selfV.Accepted:
-			what := ""
-			if selfV.FailLine >= 1 && selfV.FailLine <= len(selfWhat) {
-				what = selfWhat[selfV.FailLine-1] + ": " + core.Short(selfLines[selfV.FailLine-1], 300)
-			}
-			inconcl = append(inconcl, fmt.Sprintf("self test of the binding: TLC accepted a corrupted line (%d, %s)", selfV.FailLine, what))
-		default:
+		if corrupted > 0 {
 			kinds := map[string]int{}
 			for _, w := range selfWhat {
 				kinds[w]++
 			}
 			cov.Set("selftest_corrupted_lines_rejected", kinds)
 		}
-	} else {
+	}
+	if len(selfWhat) == 0 {
 		inconcl = append(inconcl, "self test of the binding: no line to corrupt")
 	}
 	if mcErr != nil {
 		inconcl = append(inconcl, "FeldmanVSS design model: "+mcErr.Error())
+	}
+	if skip != "" {
+		inconcl = append(inconcl, "VERIF_C15_SKIP="+skip+": parts of the check were skipped")
 	}
 	var mcOut []map[string]any
 	for i, r := range mcRes {
